@@ -68,6 +68,12 @@ func newBed(t *testing.T, c *sim.Case, res *sim.Result) *bed {
 	verifhook.Reset()
 	b.sched = sim.NewSched(sim.NewRand(c.Seed, c.Run, 1), c.Sched, res.Trace)
 	b.sticky = int(c.CfgInt("sticky", 0))
+	if ht := c.CfgInt("hold_task", -1); ht >= 0 {
+		b.sched.HoldTask, b.sched.HoldNth = fmt.Sprintf("t%d", ht), int(c.CfgInt("hold_nth", 1))
+		if c.CfgInt("hold_site", 0) == 1 {
+			b.sched.HoldSite = "wm.ensure.miss"
+		}
+	}
 	verifhook.YieldFn = func(owner any, site string) {
 		if b.onYield != nil {
 			b.onYield(b.running, owner, site)
@@ -179,6 +185,20 @@ func (b *bed) step() bool {
 		}
 		if len(free) > 0 {
 			en = free
+		}
+	}
+	// one long preemption (Sched.Hold*): the held task stays out while anybody else can run
+	if h := b.sched.Held(); h != nil {
+		var others []*sim.Task
+		for _, t := range en {
+			if t != h {
+				others = append(others, t)
+			}
+		}
+		if len(others) > 0 {
+			en = others
+		} else {
+			b.sched.EndHold()
 		}
 	}
 	v := b.sched.Choose(1 << 16)
